@@ -29,10 +29,10 @@ RULE = ('operation histories on shared SparseVector / SparseLogicalVector / Spar
         'histories of ≤30 operations generated adaptively on the real objects (history j from Random(seed, j)); at every '
         '`toarray` the public conversion / query / constructor methods that are not protocol operations (to_flat_array, '
         'from_flat_array, tolist, astype, nonzero_*, positive_/negative_*, from_dict / from_set / from_rows / from_shape, '
-        'sparse(), argmax … dot) are compared with NumPy on the dense image (tags probe:*); a Python-only stream (about 500 '
+        'sparse(copy=), sum_of, copy_like, cross-kind constructors, list-left operators, argmax … dot) are compared with NumPy on the dense image (tags probe:*); a Python-only stream (about 800 '
         'cases, tag stream:py, no Lean counterpart) judges binary64 values of extreme and inexact magnitude bit for bit '
-        'against NumPy (underflow, overflow, rounding), negative positions, empty and repeated selections and two index forms '
-        'the code rejects; the thorough tier is exhaustive for pairs of '
+        'against NumPy (underflow, overflow, rounding; comparisons one unit in the last place apart), negative positions, '
+        'reversed / overlong slices, boolean masks next to a column index, empty and repeated selections; the thorough tier is exhaustive for pairs of '
         'vectors of size ≤3 over {0, a, −a, 1/2} (+, −, ×, comparisons; ÷ over {0, ±2, 1/2}) and for pairs of logical '
         'vectors of size ≤3 (every operator), binary and in place, sparse and dense operand; a case is non-trivial '
         'when at least one operation returned or left a non-zero array; distinct = distinct op sequences')
@@ -48,13 +48,13 @@ ASSUMPTIONS = [
     'SparseArray) are dropped before NumPy is consulted, as `reduce_ndim` does by design (tests compare `sv + [[2]]` with `arr + [[2]]`)',
     'operations NumPy refuses for dtype reasons (boolean subtract / negative, float into a boolean array in place) have no '
     'reference: only the invariant and the frame are judged there',
-    'negative indices, slices with negative bounds, empty row selections and a row index twice in one fancy index are not '
-    'in the model (natural-number positions, non-empty row lists): they are generated in the Python-only stream and judged '
-    'by the oracle alone; there the code FAILS the property (listed findings negative-index-not-wrapped, '
-    'empty-selection-loses-shape, duplicate-row-selection-aliased); zero-size operands and the target (or an array sharing '
-    'its rows) as the value of its own fancy assignment are not generated at all',
-    '`sa[a:b, :] = <2-d value>` and `sa_bool[[rows], col] = value` raise although NumPy accepts them (listed findings with '
-    'proposed fixes C09-13 / C09-14): kept out of the model stream, exercised in the Python-only stream',
+    'negative positions, slices with a negative step or bounds beyond the size, boolean masks next to a column index, empty '
+    'row selections and a row index twice in one fancy index are not in the model (natural-number positions, clipped forward '
+    'slices, non-empty row lists; the model stream generates none of them): they are generated in the Python-only stream and '
+    'judged by the oracle alone; there the code FAILS the property (listed findings negative-index-not-wrapped, '
+    'slice-not-clipped-or-reversed, bool-mask-paired-with-column-index, empty-selection-loses-shape, '
+    'duplicate-row-selection-aliased; fixes C09-16 / C09-17 proposed for two of them); zero-size operands, `x[...]` and the target '
+    '(or an array sharing its rows) as the value of its own fancy assignment are not generated at all',
     'after a ZeroDivisionError inside an in-place operator the target is half-updated by design of the loop; the case ends '
     'there (`chg=?`) and the partial state is not judged',
     'after an operation of one of the known "size is not strict" classes the object is not used any more (both sides answer skip=nonwf)',
@@ -64,7 +64,7 @@ ASSUMPTIONS = [
 TRUSTED = ['Lean 4.33 kernel', 'correspondence harness harness/props/c09.py + Driver/C09.lean',
            'Model/Dense.lean as the definition of NumPy semantics (tied to real NumPy by the same run)',
            'generator reach (see histogram)']
-EXHAUSTIVE = {'quick': False, 'thorough': True}
+EXHAUSTIVE = {'quick': False, 'thorough': False}   # the thorough tier enumerates PAIRS of small vectors per operator, not all histories
 
 np = None
 SV = SLV = SA = sparse = None
@@ -220,11 +220,13 @@ class World:
     def wf_failure(self, o):
         if o.__class__ is SV:
             for k, v in o.dct.items():
+                if isinstance(k, (bool, np.bool_)) or not isinstance(k, (int, np.integer)): return 'key-not-integer'
                 if v == 0: return 'stored-zero'
                 if not (v == v and abs(v) != float('inf')) and not self.float_mode: return 'stored-nonfinite'
                 if not (0 <= k < o.size): return 'key-out-of-range'
         elif o.__class__ is SLV:
             for k in o.set:
+                if isinstance(k, (bool, np.bool_)) or not isinstance(k, (int, np.integer)): return 'key-not-integer'
                 if not (0 <= k < o.size): return 'key-out-of-range'
         elif o.__class__ is SA:
             for r in o.rows:
@@ -601,6 +603,45 @@ def has_negative(idx):
     return a.dtype != bool and a.size > 0 and bool((a < 0).any())
 
 
+def is_bool_mask(i):
+    if isinstance(i, np.ndarray): return i.dtype == bool and i.ndim == 1
+    return isinstance(i, list) and len(i) > 0 and all(isinstance(x, (bool, np.bool_)) for x in i)
+
+
+def unwrapped_negative(idx, obj):
+    """a negative component the kernels do NOT wrap (the listed class): any negative position or slice bound of a vector, the
+    column component of an array index, or the bounds of an array ROW slice (`default_range`); negative integer / list ROW
+    positions of an array go through Python list indexing, wrap correctly and are NOT part of the class"""
+    if obj.__class__ is not SA: return has_negative(idx)
+    if isinstance(idx, tuple) and len(idx) == 2:
+        r, c = idx
+        return has_negative(c) or (isinstance(r, slice) and has_negative(r))
+    if isinstance(idx, tuple) and len(idx) == 1: idx = idx[0]
+    return isinstance(idx, slice) and has_negative(idx)
+
+
+def unclipped_slice(idx, obj):
+    """a slice the kernels turn into `range(start, stop, step)` without clipping or reversing: negative step, or a bound
+    beyond the size (the listed class `slice-not-clipped-or-reversed`)"""
+    def bad(s, n):
+        return isinstance(s, slice) and ((s.step is not None and s.step < 0) or (s.stop is not None and s.stop > n) or (s.start is not None and s.start > n))
+    if obj.__class__ is not SA:
+        if isinstance(idx, tuple) and len(idx) == 1: idx = idx[0]
+        return bad(idx, obj.size)
+    if isinstance(idx, tuple) and len(idx) == 2: return bad(idx[0], len(obj.rows)) or bad(idx[1], obj.vector_size)
+    if isinstance(idx, tuple) and len(idx) == 1: idx = idx[0]
+    return bad(idx, len(obj.rows))
+
+
+def rowmask_with_column(idx, obj):
+    """`sa[<boolean row mask>, <int / list / mask column>]` or a boolean column mask next to a list of rows: the code iterates the
+    booleans as integers (the listed class `bool-mask-paired-with-column-index`)"""
+    if obj.__class__ is not SA or not (isinstance(idx, tuple) and len(idx) == 2): return False
+    r, c = idx
+    if isinstance(r, slice) or isinstance(c, slice): return False
+    return (is_bool_mask(r) and np.ndim(c) <= 1) or (is_bool_mask(c) and np.ndim(r) == 1)
+
+
 def column_part(idx):
     return idx[1] if isinstance(idx, tuple) and len(idx) == 2 else None
 
@@ -695,10 +736,12 @@ def oracle(W, line, t, err, value, npval, nperr, has_np, target, changed, fresh,
     # 2. representation invariant of everything touched or created
     known_oob = False
     sel = vshape = None
-    negidx = False
+    negidx = badslice = maskcol = False
     if k in ('set', 'get') and 'idx' in info:
         a_ = info['a']
-        negidx = has_negative(info['idx'])
+        negidx = unwrapped_negative(info['idx'], a_)
+        badslice = unclipped_slice(info['idx'], a_)
+        maskcol = rowmask_with_column(info['idx'], a_)
         if a_.__class__ in (SV, SLV):
             known_oob = out_of_range_index(info['idx'], a_.size)
         elif a_.__class__ is SA and column_part(info['idx']) is not None:
@@ -712,7 +755,7 @@ def oracle(W, line, t, err, value, npval, nperr, has_np, target, changed, fresh,
     for i in list(changed) + list(fresh):
         w = W.wf_failure(W.objs[i])
         if w:
-            if w == 'key-out-of-range' and k == 'set' and (known_oob or overlong) and not negidx:
+            if w == 'key-out-of-range' and k == 'set' and (known_oob or overlong) and not (negidx or badslice or maskcol):
                 fail('setitem-out-of-range-or-overlong-stored', f'object @{i} = {W.show(W.objs[i])} holds an index outside its size')
             elif w == 'stored-zero' and W.float_mode and k in ('bin', 'ibin', 'rbin') \
                     and underflow_only(W, (W.objs[target] if k == 'ibin' else value), info):
@@ -808,29 +851,25 @@ def oracle(W, line, t, err, value, npval, nperr, has_np, target, changed, fresh,
             elif err == 'rejected' and k in ('bin', 'rbin', 'ibin') and is_column(info.get('b')):
                 fail('rejected-valid:column-operand', f'NumPy broadcasts the (m,1) operand to {fmt_dense(npval)}, '
                      f'the sparse code raised {info.get("exc")}')
-            elif err == 'rejected' and k == 'set' and info['a'].__class__ is SA and isinstance(info['idx'], tuple) and len(info['idx']) == 2 \
-                    and isinstance(info['idx'][0], slice) and info['idx'][0] != slice(None) and info['idx'][1] == slice(None) \
-                    and vshape is not None and len(vshape) == 2:
-                fail('rejected-valid:sa-rowslice-allcols-2d-value', f'`sa[a:b, :] = <2-d value>`: NumPy accepts, the sparse code raised {info.get("exc")}')
-            elif err == 'rejected' and k == 'set' and info['a'].__class__ is SA and info['a'].dtype is bool and isinstance(info['idx'], tuple) \
-                    and len(info['idx']) == 2 and np.ndim(info['idx'][0]) == 1 and np.ndim(info['idx'][1]) == 0 \
-                    and not isinstance(info['idx'][0], slice) and 'not iterable' in str(info.get('exc')):
-                fail('rejected-valid:sab-rowlist-intcol', f'`sa_bool[[rows], col] = value`: NumPy accepts, the sparse code raised {info.get("exc")}')
             elif err == 'rejected':
                 fail(f'rejected-valid:{opname}' + (f':{kinds}' if kinds else ''), f'NumPy computes {fmt_dense(npval)}, the sparse code raised {info.get("exc")}')
         elif err == 'rejected' and nperr == 'nonfinite' and k in ('bin', 'rbin', 'ibin') and is_column(info.get('b')):
             fail('rejected-valid:column-operand', f'the sparse code raised {info.get("exc")}')
         elif err == 'rejected' and nperr == 'nonfinite':
             fail(f'rejected-valid:{opname}' + (f':{kinds}' if kinds else ''), f'the sparse code raised {info.get("exc")}')
-    # negative positions are not wrapped by the vector kernels (`sv[-1]` is 0, `sv[-1] = x` stores key -1, `sv[-2:]` is longer
-    # than the vector): one class, recognised by the index alone
-    if negidx and fails:
-        fam = ('dense-mismatch:get', 'dense-mismatch:set', 'wf:key-out-of-range', 'index-out-of-range-accepted', 'not-rejected:get',
+    # index classes the kernels get wrong in a documented way, recognised by the index alone (and only for the failure
+    # families such an index can produce): negative positions that are not wrapped, slices that are not clipped / reversed,
+    # boolean masks iterated as integers next to a column index
+    for flag, sig in ((maskcol, 'bool-mask-paired-with-column-index'), (negidx, 'negative-index-not-wrapped'),
+                      (badslice, 'slice-not-clipped-or-reversed')):
+        if not (flag and fails): continue
+        fam = ('dense-mismatch:get', 'dense-mismatch:set', 'wf:key-out-of-range', 'wf:key-not-integer', 'index-out-of-range-accepted', 'not-rejected:get',
                'not-rejected:set', 'setitem-', 'rejected-valid:get', 'rejected-valid:set')
         mine = [f for f in fails if f['signature'].startswith(fam)]
         if mine:
             fails = [f for f in fails if f not in mine]
-            fails.append({'signature': 'negative-index-not-wrapped', 'what': f'`{line}`: ' + mine[0]['what'].split(': ', 1)[-1]})
+            fails.append({'signature': sig, 'what': f'`{line}`: ' + mine[0]['what'].split(': ', 1)[-1]})
+        break
     return fails
 
 
@@ -896,14 +935,10 @@ def probe_methods(W, o, line):
     ok, v = call('positive_index'); ok and expect('positive_index', v, np.nonzero(d > 0), index_eq)
     ok, v = call('negative_index')
     if ok:
-        if v is None and cls == 'SLV':
-            fails.append({'signature': 'slv-negative-queries-return-none', 'what': f'`{line}`: SparseLogicalVector.negative_index() returns None (no `return`)'})
-        else: expect('negative_index', v, np.nonzero(d < 0), index_eq)
+        expect('negative_index', v, np.nonzero(d < 0), index_eq)
     ok, v = call('negative_keys')
     if ok:
-        if v is None and cls == 'SLV':
-            fails.append({'signature': 'slv-negative-queries-return-none', 'what': f'`{line}`: SparseLogicalVector.negative_keys() returns None (no `return`)'})
-        else: expect('negative_keys', set(int(i) for i in v) if v is not None else None, set(int(i) for i in np.nonzero(d < 0)[-1]))
+        expect('negative_keys', set(int(i) for i in v) if v is not None else None, set(int(i) for i in np.nonzero(d < 0)[-1]))
     ok, v = call('nonzero_keys'); ok and expect('nonzero_keys', set(int(i) for i in v), set(int(i) for i in nz[-1]))
     ok, v = call('nonzero_values'); ok and expect('nonzero_values', sorted(float(x) for x in v), sorted(float(x) for x in d[d != 0]))
     ok, v = call('nonzero_items')
@@ -951,10 +986,95 @@ def probe_methods(W, o, line):
         expect('sparse(list)', (r.__class__, r.to_array().tolist()), (o.__class__, d.tolist()))
     except Exception as e:
         fail('constructors', f'raised {type(e).__name__}: {e}')
+    # ---- sum_of (vectors: list and integer index; arrays: both axes)
+    ncol = d.shape[-1]
+    some = [j for j in range(ncol) if j % 2 == 0] or [0]
+    finite = bool(np.isfinite(d.astype(float)).all())
+    try:
+        if not finite: pass      # (inf - inf inside a sum: thermosteam runs NumPy with errors raised)
+        elif two:
+            for ix, nm in ((some, 'list'), (ncol - 1, 'int')):
+                want0 = d[:, ix].astype(float).sum(axis=0)
+                expect(f'sum_of({nm}, axis=0)', o.sum_of(ix, axis=0) if nm == 'list' else o.sum_of(ix), want0, eq_arr)
+                want1 = d[:, ix].astype(float).sum(axis=1) if nm == 'list' else d[:, ix].astype(float)
+                expect(f'sum_of({nm}, axis=1)', o.sum_of(ix, axis=1), want1, eq_arr)
+        else:
+            expect('sum_of(list)', float(o.sum_of(some)), float(d[some].astype(float).sum()))
+            expect('sum_of(int)', float(o.sum_of(ncol - 1)), float(d[ncol - 1]))
+    except Exception as e:
+        fail('sum_of', f'raised {type(e).__name__}: {e}')
+    # ---- copy_like onto a fresh object of the same shape; a read-only part makes it fail before anything is written
+    try:
+        if cls == 'SV': z = SV.from_size(o.size)
+        elif cls == 'SA' and not boolean: z = SA.from_shape(d.shape)
+        else: z = None
+        if z is not None:
+            z.copy_like(o)
+            expect('copy_like', z.to_array(), d, eq_arr)
+            expect('copy_like(source untouched)', o.to_array(), d, eq_arr)
+            if W.wf_failure(z): fail('copy_like', f'leaves {W.wf_failure(z)}')
+            if cls == 'SA' and len(z.rows) > 1 and d.any():
+                z = SA.from_shape(d.shape); z.rows[-1].read_only = True
+                try: z.copy_like(o); raised = False
+                except ValueError: raised = True
+                expect('copy_like(read-only last row) raises', raised, True)
+                if raised and not eq_arr(z.to_array(), np.zeros(d.shape)) and eq_arr(z.to_array()[:-1], d[:-1]) and not z.to_array()[-1].any():
+                    # exactly the rows before the read-only one were written (row-by-row loop): the listed class
+                    fails.append({'signature': 'sa-copylike-partial-write-before-readonly-error',
+                                  'what': f'`{line}`: SparseArray.copy_like wrote the rows before a read-only row, then raised'})
+                else:
+                    expect('copy_like(read-only last row) writes nothing', z.to_array(), np.zeros(d.shape), eq_arr)
+    except Exception as e:
+        fail('copy_like', f'raised {type(e).__name__}: {e}')
+    # ---- constructors from another sparse object (same kind and cross kind), `copy=` of the factory functions
+    try:
+        from thermosteam.base.sparse import sparse_vector, sparse_array
+        if not two:
+            expect('SparseVector(obj)', SV(o).to_array(), d.astype(float), eq_arr)
+            expect('SparseLogicalVector(obj)', SLV(o).to_array(), d != 0, eq_arr)
+            c1 = SV(o) if cls == 'SV' else SLV(o)
+            expect('constructor(obj) is a copy', c1 is not o and not (hasattr(o, 'shares_data_with') and o.shares_data_with(c1)), True)
+            c2 = sparse_vector(o, copy=True)
+            expect('sparse_vector(copy=True)', (c2 is not o, c2.__class__, c2.to_array().tolist()), (True, o.__class__, d.tolist()))
+            expect('sparse_vector(copy=False)', sparse_vector(o) is o, True)
+        else:
+            c2 = sparse_array(o, copy=True)
+            expect('sparse_array(copy=True)', (c2 is not o, any(a is b for a in c2.rows for b in o.rows), c2.to_array().tolist()), (True, False, d.tolist()))
+            expect('sparse_array(copy=False)', sparse_array(o) is o, True)
+        c3 = sparse(o, copy=True)
+        if c3 is o:
+            fails.append({'signature': 'sparse-copy-flag-ignored', 'what': f'`{line}`: sparse(x, copy=True) returns x itself for a sparse x'})
+        else:
+            expect('sparse(copy=True)', (c3.__class__, c3.to_array().tolist()), (o.__class__, d.tolist()))
+        expect('sparse(copy=False)', sparse(o) is o, True)
+    except Exception as e:
+        fail('constructors(obj)', f'raised {type(e).__name__}: {e}')
+    # ---- a list on the left of an operator (reflected operators of vectors and arrays)
+    if not boolean and finite and float(np.abs(d).max(initial=0)) < 1e150:
+        lst = (np.abs(d.astype(float)) + 1.0).tolist()
+        L = np.array(lst)
+        for name, fn in (('radd', lambda x, y: x + y), ('rsub', lambda x, y: x - y), ('rmul', lambda x, y: x * y)) + \
+                (() if (d == 0).any() else (('rtruediv', lambda x, y: x / y),)):
+            try:
+                got = fn(lst, o)
+                expect(f'list.{name}', got.to_array() if is_sparse(got) else got, fn(L, d.astype(float)), eq_arr)
+            except Exception as e:
+                fail(f'list.{name}', f'raised {type(e).__name__}: {e}')
+    # ---- scalar conversions of one-element objects; len / iter of arrays
+    try:
+        if d.size == 1:
+            x = d.ravel()[0]
+            expect('float()', float(o), float(x)); expect('int()', int(o), int(x)); expect('bool()', bool(o), bool(x))
+        if two:
+            expect('len', len(o), d.shape[0])
+            expect('iter', [np.asarray(r.to_array()).tolist() for r in o], d.tolist())
+    except Exception as e:
+        fail('scalar conversion / iter', f'raised {type(e).__name__}: {e}')
     # ---- methods passed through to the dense array
     if two and not boolean:
         for name, args in (('argmax', ()), ('argmin', ()), ('prod', ()), ('cumsum', ()), ('cumprod', ()), ('round', (1,)), ('clip', (-1.0, 1.0)),
-                           ('dot', (np.ones(d.shape[1]),)), ('trace', ()), ('argsort', ()), ('conj', ())):
+                           ('dot', (np.ones(d.shape[1]),)), ('trace', ()), ('argsort', ()), ('conj', ()), ('std', ()), ('var', ()),
+                           ('__pow__', (2,)), ('__floordiv__', (2.0,)), ('__mod__', (2.0,)), ('__matmul__', (np.ones(d.shape[1]),))):
             if not hasattr(o, name) or not hasattr(d, name): continue
             try:
                 with np.errstate(all='ignore'): want = getattr(d, name)(*args)
@@ -1295,8 +1415,6 @@ class Gen:
         if rt[0] in 'mM' and not ct.startswith('s'):
             rt = 'f' + ','.join(str(i) for i, x in enumerate(rt[1:].split(',')) if x == '1') if '1' in rt else 'i0'
             h = None if rt.startswith('i') else len(rt[1:].split(','))
-        if rt[0] in 'fF' and ct[0] == 'i' and self._bool_target:
-            rt = f'i{rt[1:].split(",")[0]}'; h = None      # (`sa_bool[[rows], col] = …` raises TypeError in the code: not generated)
         if rt[0] in 'fF' and ct[0] == 'i':
             return f'{rt}|{ct}', (None, h)
         return f'{rt}|{ct}', (h, w)
@@ -1359,10 +1477,6 @@ class Gen:
             v = self.value_for(shape, boolean)
             if v == f'@{a}' or (v.startswith('@') and o.shares_data_with(self.W.objs[int(v[1:])])):
                 v = scalar_lit(rng, 1.0, 'Pf')       # (the array or one of its rows as the value: read while written)
-            # (`sa[a:b, :] = <2-d value>` is rejected by the code although NumPy accepts it: not generated)
-            if '|' in idx and idx.split('|')[0].startswith('s') and idx.split('|')[0] != 's_:_:_' and idx.split('|')[1] == 's_:_:_' \
-                    and (v.startswith('@') and self.W.objs[int(v[1:])].__class__ is SA or (not v.startswith('@') and 'x' in v.split(':')[0])):
-                v = scalar_lit(rng, 1.0, 'Pf')
             self.do(f'set @{a} {idx} {v}')
         elif kind == 'red':
             r = rng.choice(['sum', 'any', 'all', 'max', 'min', 'mean'])
@@ -1983,12 +2097,10 @@ def grid_array(rng):
             h, w = sel[form]
             base = 'new ' + lit_token('P', ty, [3, 4], vals(12))
             cases.append(Case([base, f'get @3 {form}'], {'kind': 'grid', 'cell': f'sa{ty}/get/{form}'}))
-            if boolean and form == 'f0,2|i1': continue      # raises TypeError in the code (noted, not generated)
             vkinds = ['s', 's0']
             if h is None and w is None: pass
             elif h is None or w is None: vkinds += ['v', 'ndv', 'SV', 'wrap']
             else: vkinds += ['row', 'ndrow', 'SVrow', 'mat', 'ndmat', 'mat1']
-            if form.split('|')[0] in ('s0:2:_', 's1:3:_') and form.endswith('|s_:_:_'): vkinds = [x for x in vkinds if 'mat' not in x]
             for vk in vkinds:
                 ops_ = [base]
                 k = w if h is None else h
@@ -2045,7 +2157,8 @@ def py_stream_cases(rng):
     float/…  binary64 values of extreme and inexact magnitude (underflow, overflow, rounding) under the element-wise operators,
              compared bit for bit with NumPy; a stored zero or a lost entry is an invariant failure;
     neg/…    negative positions and slice bounds; empty/… empty selections; dup/… the same row twice in a selection;
-    form/…   index forms the code rejects although NumPy accepts them"""
+    maskcol/… boolean masks next to a column index; slice/… negative steps and bounds beyond the size;
+    form/…   the index forms repaired by a011765 (regression cases)"""
     cases = []
     def add(cell, ops): cases.append(Case(ops, {'kind': 'py', 'stream': 'py', 'cell': cell}))
     def fvals(k, zero_p=0.25, nozero=False):
@@ -2076,6 +2189,33 @@ def py_stream_cases(rng):
                                  f'rbin {op} {lit_token("P", "f", [], fvals(1, nozero=True))} @0'])
             add(f'float/{op}/cmp-or-chain', ['new ' + lit_token('P', 'f', [n], fvals(n)), 'new ' + lit_token('N', 'f', [n], fvals(n, nozero=(op == 'truediv'))),
                                              f'bin {op} @0 @1', 'neg @0', 'abs @1', 'red max @0 _ 0', 'red min @1 _ 0', 'copy @0', 'toarray @1'])
+    # comparisons of values one unit in the last place apart (and equal ones), every operator, every operand kind
+    for op in CMP:
+        for x in (1.0, 0.1, 1e-200, 1e200, -3.0, 5e-324):
+            y = math.nextafter(x, math.inf)
+            va = [x, y, 0.0, -x]; vb = [y, x, 0.0, -y]
+            L = lambda k, v: lit_token(k, 'f', [len(v)], v)
+            add(f'float/cmp/{op}/scalar', ['new ' + L('P', va), f'bin {op} @0 {lit_token("P", "f", [], [x])}', f'bin {op} @0 {lit_token("N", "f", [], [y])}',
+                                           f'rbin {op} {lit_token("P", "f", [], [y])} @0'])
+            add(f'float/cmp/{op}/sparse', ['new ' + L('P', va), 'new ' + L('N', vb), f'bin {op} @0 @1', f'bin {op} @1 @0', f'bin {op} @0 @0'])
+            add(f'float/cmp/{op}/array', ['new ' + L('P', va), f'bin {op} @0 {L("P", vb)}', f'bin {op} @0 {L("N", vb)}'])
+            add(f'float/cmp/{op}/SA', ['new ' + lit_token('P', 'f', [2, 4], va + vb), f'bin {op} @2 {lit_token("P", "f", [], [x])}', f'bin {op} @2 {L("P", vb)}',
+                                       'new ' + lit_token('N', 'f', [2, 4], vb + va), f'bin {op} @2 @5'])
+    # reductions and indexing on extreme values
+    for rep in range(10):
+        n = rng.choice([3, 4]); v = fvals(n)
+        ops = ['new ' + lit_token('P', 'f', [n], v)]
+        for r in ('any', 'all', 'max', 'min'):
+            for kd in (0, 1): ops.append(f'red {r} @0 _ {kd}')
+        ops += [f'get @0 f{",".join(str(rng.randrange(n)) for _ in range(2))}', f'get @0 s1:{n}:_', f'get @0 m{",".join(str(int(rng.random() < 0.5)) for _ in range(n))}',
+                f'set @0 f0,{n - 1} {lit_token("P", "f", [2], fvals(2))}', 'toarray @0', 'copy @0', 'neg @0', 'abs @0']
+        add('float/red-index', ops)
+        m = 2; w = fvals(m * n)
+        ops = ['new ' + lit_token('N', 'f', [m, n], w)]
+        for r in ('any', 'all', 'max', 'min'):
+            for ax in ('_', '0', '1'): ops.append(f'red {r} @{m} {ax} 0')
+        ops += [f'get @{m} i1|i{rng.randrange(n)}', f'get @{m} s_:_:_|i0', f'set @{m} i0|i{rng.randrange(n)} {lit_token("P", "f", [], fvals(1))}', f'toarray @{m}']
+        add('float/red-index/SA', ops)
     for rep in range(12):
         n = rng.choice([3, 4]); v = fvals(n)
         add('float/getset', ['new ' + lit_token('P', 'f', [n], v), f'get @0 i{rng.randrange(n)}', f'set @0 i{rng.randrange(n)} {lit_token("P", "f", [], fvals(1))}',
@@ -2096,12 +2236,28 @@ def py_stream_cases(rng):
             add(f'empty/set/{form}', [new, f'set @{t} {form} {"Pb:1" if "Pb" in new else "Pf:5"}', f'toarray @{t}'])
     for form in ('s1:1:_', 'm0,0,0', 'M0,0,0', 's3:_:_'):
         add(f'empty/SV/{form}', ['new Pf3:1,0,2', f'get @0 {form}', f'set @0 {form} Pf:5', 'toarray @0'])
+    # ---- a boolean mask next to a column index (`sa[mask, j]`, `sa[mask, [j, k]]`, `sa[[i, k], colmask]`, `sa[mask, colmask]`)
+    for tk, new, val in (('SA', 'new Pf3x4:1,0,2,3,0,0,5,6,7,8,0,9', 'Pf:42'), ('SAb', 'new Pb3x4:1,0,1,1,0,0,1,0,1,1,0,1', 'Pb:1')):
+        for form, cnt in (('M1,0,1|i1', 2), ('m1,0,1|i1', 2), ('M0,1,1|i3', 2), ('M1,0,1|f0,3', 2), ('M1,0,1|F0,3', 2), ('f0,2|M1,0,0,1', 2),
+                          ('M1,0,1|M1,0,0,1', 2), ('m0,1,1|m0,1,1,0', 2), ('i1|M1,0,0,1', 2), ('M1,1,1|i0', 3)):
+            add(f'maskcol/{tk}/get/{form}', [new, f'get @3 {form}'])
+            add(f'maskcol/{tk}/set/{form}', [new, f'set @3 {form} {val}', 'toarray @3'])
+            vals = [float(rng.random() < 0.5) for _ in range(cnt)] if tk == 'SAb' else gen_vals(rng, cnt, 1.0)
+            add(f'maskcol/{tk}/setv/{form}', [new, f'set @3 {form} {lit_token("P", "b" if tk == "SAb" else "f", [cnt], vals)}', 'toarray @3'])
+    # ---- slices with a negative step or bounds beyond the size (NumPy reverses / clips)
+    for tk, new, t, val in (('SV', 'new Pf4:1,0,2,3', 0, 'Pf:7'), ('SLV', 'new Pb4:1,0,1,1', 0, 'Pb:0'),
+                            ('SA', 'new Pf3x4:1,0,2,3,0,0,5,6,7,8,0,9', 3, 'Pf:7')):
+        forms = ['s_:_:-1', 's3:0:-1', 's_:_:-2', 's1:10:_', 's0:9:2', 's5:_:_', 's2:1:_', 's_:_:2', 's1:4:2']
+        if t: forms += ['s_:_:_|s1:9:_', 's_:_:_|s_:_:-1', 'i0|s_:_:-1', 's0:5:_|i1', 's_:_:2|s_:_:_', 's_:_:_|s0:4:2', 's_:_:-1|s_:_:_', 'f0,2|s2:8:_']
+        for form in forms:
+            add(f'slice/{tk}/get/{form}', [new, f'get @{t} {form}'])
+            add(f'slice/{tk}/set/{form}', [new, f'set @{t} {form} {val}', f'toarray @{t}'])
     # ---- the same row twice in a selection
     for op in ('add', 'mul', 'sub'):
         add(f'dup/i{op}', ['new Pf2x2:1,2,3,4', 'get @2 f0,0', f'ibin {op} @3 Pf:2', 'toarray @2'])
         add(f'dup/i{op}/F', ['new Pf3x2:1,2,3,4,5,6', 'get @3 F2,0,2', f'ibin {op} @4 Pf2:2,4', 'toarray @3'])
     add('dup/get', ['new Pf2x2:1,2,3,4', 'get @2 f0,0', 'toarray @3'])
-    # ---- index forms rejected although NumPy accepts them
+    # ---- index forms repaired by a011765 (`sa[a:b, :] = 2-d`, `sa_bool[[rows], col] = value`): regression cases
     for form, v in (('s0:2:_|s_:_:_', 'Pf2x4:1,2,3,4,5,6,7,8'), ('s1:3:_|s_:_:_', 'Nf2x4:1,0,3,0,5,0,7,0'), ('s0:1:_|s_:_:_', 'Pf1x4:1,2,3,4'),
                     ('s0:2:_|s_:_:_', 'Pf4:1,2,3,4'), ('s0:2:_|s_:_:_', 'Pf:3')):
         add(f'form/rowslice-allcols/{v.split(":")[0]}', ['new Pf3x4:1,0,2,3,0,0,5,6,7,8,0,9', f'set @3 {form} {v}', 'toarray @3'])
